@@ -19,7 +19,8 @@ def one_element(define, condition, repeat, body, attributes, omit, structure=Fal
     inner_expr = "x/v | default" if repeat else "tv"
     children = ["orig ", El("b", children=["child"]), " text"] if nested is None else ["[", nested, "]"]
     p = El("p", attrs=[("class", "c"), ("id", "i1")], children=children,
-           define=([("local", "d", "dv"), ("global", "g", "dv")] if define == 1 else [("global", "g2", "dv"), ("local", "l2", "tv"), ("", "d", "dv")] if define == 2 else None),
+           define=([("local", "d", "dv"), ("global", "g", "dv")] if define == 1 else [("global", "g2", "dv"), ("local", "l2", "tv"), ("", "d", "dv")] if define == 2
+                   else [("local", "e", "dv"), ("local", "d", "e"), ("global", "g3", "d")] if define == 3 else None),  # 3: later statements use earlier ones
            condition=("cv" if condition else None),
            repeat=(("x", "items") if repeat else None),
            content=((structure, inner_expr) if body == 1 else None),
@@ -33,8 +34,9 @@ def grammar(level):
     """level 0: quick subset; 1: every combination of the six commands on one element; 2: + nestings"""
     out = []
     combos = list(itertools.product((0, 1, 2), (0, 1), (0, 1), (0, 1, 2), (0, 1), (0, 1, 2)))
+    combos += [(3,) + c for c in itertools.product((0, 1), (0, 1), (0, 1, 2), (1,), (0, 1, 2))]
     if level == 0:
-        pick = [(0, 0, 0, 1, 0, 0), (0, 1, 0, 0, 0, 0), (0, 0, 1, 1, 0, 0), (0, 0, 1, 2, 0, 0), (1, 0, 0, 1, 1, 0), (2, 1, 1, 1, 1, 1),
+        pick = [(3, 0, 0, 0, 1, 0), (0, 0, 0, 1, 0, 0), (0, 1, 0, 0, 0, 0), (0, 0, 1, 1, 0, 0), (0, 0, 1, 2, 0, 0), (1, 0, 0, 1, 1, 0), (2, 1, 1, 1, 1, 1),
                 (0, 0, 0, 2, 0, 0), (0, 0, 0, 0, 1, 2), (1, 1, 1, 2, 1, 1), (2, 0, 1, 0, 1, 0), (0, 1, 1, 0, 0, 1), (1, 0, 0, 0, 0, 1)]
         combos = [c for c in combos if c in pick]
     for c in combos:
